@@ -383,8 +383,10 @@ class C05(PropertyCheck):
                 yield {"tag": "recon_posonly_empty", "kind": "recon", "fn": "posonly", "A": [], "b": [],
                        "p_initial": rng.random() < 0.5}
 
+    LAYOUTS = ["mapper", "mapper+func", "func+mapper", "mapper+mapper", "mapper+func+mapper", "func+func+mapper"]
+
     def _inversion_cases(self, rng, layouts):
-        for _ in range(layouts):
+        for li in range(layouts):
             H, W = rng.randint(6, 9), rng.randint(6, 9)
             m, mkind = gen.random_mask(rng, H, W, margin=2,
                                        kind=rng.choice(["all", "block", "annulus", "cross", "bernoulli"]))
@@ -398,8 +400,9 @@ class C05(PropertyCheck):
             psf = [[F(rng.randint(0, 4), 8) for _ in range(3)] for _ in range(3)]
             psf[1][1] = F(1)
             objs = []
-            layout = rng.choice(["mapper", "mapper", "mapper+func", "func+mapper", "mapper+mapper",
-                                 "mapper+func+mapper"])
+            # every layout at least once per run (the parameter offset of a mapper behind other objects is
+            # where index bookkeeping goes wrong), then random ones
+            layout = self.LAYOUTS[li] if li < len(self.LAYOUTS) else rng.choice(self.LAYOUTS)
             for o in layout.split("+"):
                 if o == "mapper":
                     objs.append({"type": "mapper", "shape": [rng.randint(3, 5), rng.randint(3, 5)],
